@@ -7,6 +7,10 @@ TECH_A = "bounded symbolic execution of the real Python code (CrossHair 0.0.110 
 TECH_B = "; plus direct z3 obligations generated from the live source/AST (unbounded in the stated dimension)"
 
 CLAIMED = {
+    "C03": dict(
+        text="Bounded differential symbolic model checking of acceptance: on every path where the RFC 9535 reference recogniser derives prefix + k symbolic characters + suffix and finds it valid, the real compile() must return a query whose normal form (segments, selectors, decoded names, integers, literal values, operator grouping) equals the RFC reading. Instances: every position of the seed corpus with any character (k=1; 2 thorough) and with symbolic blank characters (every optional-S position), plus terminal-class instances over whole ABNF classes (shorthand names incl. non-BMP, both quote styles, every escape form incl. \\uXXXX and surrogate pairs with symbolic hex digits, int/frac/exp digits). In addition z3 decides, from the lexer's live compiled patterns, that every string of any length of member-name-shorthand, function-name, blank runs, int and number is matched by the corresponding token pattern.",
+        note="Trusted: as C04, plus the regex-to-z3 translator (stdlib sre parse tree -> z3 regex; z3's character sort is folded above U+2FFFF, exactness of the fold is checked on the extracted patterns; a vacuity twin must be refuted each run). The real hex/surrogate kernels run symbolically through guarded arithmetic rewrites of << | & and an arithmetic UTF-8 model of str.encode. Outside: valid queries further than k characters from every seed.",
+        tech=TECH_A + TECH_B, design="§4 C03"),
     "C13": dict(
         text="Bounded symbolic model checking of totality: compile() is executed on prefix + k symbolic characters + suffix for holes at every position of the seed corpus, at the lax-parsing contexts (k=2; 3 thorough), at numeric overflow edges, inside queries nested up to 32 deep and inside structured queries up to 1024 characters long; find() is executed for a pool of 25 filter/function queries on symbolic documents whose root and children range over every JSON kind. Postcondition on every path: the call returns or raises a JSONPathError whose str() is produced. No oracle is involved, so any escaping exception is a replayed, concrete finding.",
         note="Trusted: CrossHair/z3, the stubs of C04. The foreign regex engines behind match/search run concretely on realized arguments. Outside: query strings not within k characters of a seed; recursion limits (C18).",
